@@ -22,7 +22,7 @@ TRUSTED = ['Lean 4.33 kernel', 'axioms: propext, Classical.choice, Quot.sound', 
            'harness/c15.py comparison tolerances (1e-12 forward maps, 1e-9 rebuilt rotations, 1e-6 inside |beta|<zero_eps)',
            'modelled, not verified: numqi/group/_lie.py, matrix_space/_clebsch_gordan.py; sympy CG values are a contract (probed)']
 
-OPEN_STATEMENTS = ['Numqi.C15.So3RoundtripThreshold.Statement', 'Numqi.C15.Su2Roundtrip.Statement', 'Numqi.C15.Su2IrrepHom.Statement']
+OPEN_STATEMENTS = ['Numqi.C15.So3RoundtripThreshold.Statement', 'Numqi.C15.Su2IrrepHom.Statement']
 PI = math.pi
 EPS = 1e-7
 
@@ -300,6 +300,59 @@ def correspondence(ctx):
         ok = branch_of_beta(be) == mb[0] and (abs(be - mbeta) <= 1e-12 or abs(math.cos(be) - math.cos(mbeta)) <= 1e-15) and d <= (2e-7 if thr else 1e-9)
         cmp(ctx, op, ok, mo, (al, be, ga)); ctx.count('su2ang-' + mb[0])
 
+    # ---- non-default zero_eps: the threshold is an argument and must be forwarded (so3_to_angle, su2_to_angle, so3_to_su2) ----
+    for eps in [1e-3, 1e-5, 0.05]:   # (thresholds below ~1e-7 cannot be resolved by arccos next to +-1 in binary64)
+        betas = [0.0, PI, eps / 3, eps * 0.9, eps * 1.1, eps * 5, PI - eps / 3, PI - eps * 0.9, PI - eps * 1.1, 1.0, 2.5]
+        Rs = [ref_so3(rng.uniform(0, 6), b, rng.uniform(0, 6)) if b not in (0.0, PI) else (exact_rz(1.3) if b == 0.0 else exact_rz(1.3) @ np.diag([-1.0, 1.0, -1.0])) for b in betas]
+        ops_e = [mat_ops('so3ang', R, eps) for R in Rs] + [mat_ops('so3su2', R, eps) for R in Rs]
+        Us = [ref_su2(rng.uniform(0, 6), b, rng.uniform(0, 6)) for b in betas if not (0.8 * eps < min(b, PI - b) < 1.25 * eps)]
+        ops_e += ['C15 su2ang ' + ' '.join(f2b(x) for x in (U[0, 0].real, U[0, 0].imag, U[0, 1].real, U[0, 1].imag)) + ' ' + f2b(eps) for U in Us]
+        mo = common.run_model(ops_e)
+        nR = len(Rs)
+        for i, R in enumerate(Rs):
+            r = guarded(lambda: G.so3_to_angle(R, zero_eps=eps))
+            mb = mo[i].split(' ')
+            if isinstance(r, str) or len(mb) != 2:
+                cmp(ctx, ops_e[i], r == mo[i], mo[i], r, key='zero_eps-so3ang'); continue
+            al, be, ga = [float(x) for x in r]
+            ma, mbeta, mg = parse_f(mb[1])
+            ok = branch_of_beta(be, eps) == mb[0] and abs(be - mbeta) <= 1e-12 and np.abs(ref_so3(al, be, ga) - ref_so3(ma, mbeta, mg)).max() <= 1e-9
+            cmp(ctx, ops_e[i], ok, mo[i], (al, be, ga), key='zero_eps-so3ang')
+            U = guarded(lambda: G.so3_to_su2(R, zero_eps=eps))
+            m_ = parse_cx(mo[nR + i]).reshape(2, 2)
+            cmp(ctx, ops_e[nR + i], (not isinstance(U, str)) and min(np.abs(U - m_).max(), np.abs(U + m_).max()) <= 1e-9, mo[nR + i], U, key='zero_eps-so3su2')
+        for j, U in enumerate(Us):
+            op = ops_e[2 * nR + j]; line = mo[2 * nR + j]
+            r = guarded(lambda: G.su2_to_angle(U, zero_eps=eps))
+            mb = line.split(' ')
+            if isinstance(r, str) or len(mb) != 2:
+                cmp(ctx, op, r == line, line, r, key='zero_eps-su2ang'); continue
+            al, be, ga = [float(x) for x in r]
+            ma, mbeta, mg = parse_f(mb[1])
+            thr = branch_of_beta(be, eps) != 'generic'
+            ok = branch_of_beta(be, eps) == mb[0] and (abs(be - mbeta) <= 1e-12 or abs(math.cos(be) - math.cos(mbeta)) <= 1e-15) and np.abs(ref_su2(al, be, ga) - ref_su2(ma, mbeta, mg)).max() <= (2e-7 if thr else 1e-9)
+            cmp(ctx, op, ok, line, (al, be, ga), key='zero_eps-su2ang')
+
+    # ---- Clebsch–Gordan table (sympy) against the exact rational model (Racah's formula): sign and square ------------------
+    top = 8 if ctx.quick() else 12
+    ops_c, impl_c = [], []
+    for j1d in range(0, top + 1):
+        for j2d in range(0, top + 1 - j1d):
+            ops_c.append(f'C15 cg {j1d} {j2d}')
+            impl_c.append(guarded(lambda: numqi.matrix_space.get_clebsch_gordan_coeffient(j1d, j2d)))
+    mo = common.run_model(ops_c)
+    for op, tab, line in zip(ops_c, impl_c, mo):
+        ok = not isinstance(tab, str)
+        if ok:
+            blocks = line.split(' ')
+            ok = len(blocks) == len(tab)
+            for (jd, coeff), blk in zip(tab, blocks if ok else []):
+                head, body = blk.split('|')
+                vals = np.asarray(coeff, dtype=np.float64).reshape(-1)
+                sg = np.array([int(t.split(':')[0]) for t in body.split(';')]); sq = np.array([float(Fraction(t.split(':')[1])) for t in body.split(';')])
+                ok = ok and int(head) == jd and vals.shape == sg.shape and bool(np.all(np.sign(np.where(np.abs(vals) < 1e-14, 0, vals)) == sg)) and bool(np.all(np.abs(vals * vals - sq) <= 1e-12))
+        cmp(ctx, op, ok, line[:200], 'table' if not isinstance(tab, str) else tab, key='cg')
+
     # ---- mixed batches: the batched call against the model element by element ---------------------------------------
     nprng = np.random.default_rng(ctx.np_seed)
     for shape in [(7,), (2, 3), (1,), (4, 1, 2)] if ctx.quick() else [(7,), (2, 3), (1,), (4, 1, 2), (40,), (3, 5, 2)]:
@@ -375,6 +428,48 @@ def probe(ctx):
 
     def fl(x):
         return [float(v) for v in np.asarray(x).reshape(-1)]
+
+    # P0: committed corpus of past failing inputs (corpus/C15/*.jsonl), replayed first
+    import glob, json, os
+    for path in sorted(glob.glob(os.path.join(common.VERIF, 'corpus', 'C15', '*.jsonl'))):
+        for ln, line in enumerate(open(path)):
+            if not line.strip():
+                continue
+            e = json.loads(line)
+            tag = f'{os.path.basename(path)}:{ln + 1}'
+            if e['kind'] == 'su2':
+                if 'angles' in e:
+                    U = ref_su2(*e['angles'])
+                else:
+                    U = np.array([complex(x, y) for x, y in e['U']]).reshape(2, 2)
+                    if e.get('normalise'):
+                        U = U / math.sqrt(abs(np.linalg.det(U)))
+                def f():
+                    a, b, g = G.su2_to_angle(U)
+                    return np.array([float(a), float(b), float(g)]), G.angle_to_su2(a, b, g), np.asarray(G.get_su2_irrep(1, U)), \
+                        amax(np.asarray(G.get_su2_irrep(3, U @ U)) - np.asarray(G.get_su2_irrep(3, U)) @ np.asarray(G.get_su2_irrep(3, U)))
+                r = guarded(f)
+                if isinstance(r, str) or not np.all(np.isfinite(r[0])) or amax(r[1] - U) > 1e-6 or amax(r[2] - U) > 1e-6 or r[3] > 1e-5:
+                    ctx.fail('corpus-su2', f'corpus {tag} ({e.get("why", "")}): su2_to_angle / get_su2_irrep fail: ' + (r if isinstance(r, str) else f'angles={r[0].tolist()}, |rebuilt-U|={amax(r[1] - U):.3g}, |D1(U)-U|={amax(r[2] - U):.3g}, hom={r[3]:.3g}'),
+                             dict(op='su2-roundtrip', U=[[x.real, x.imag] for x in U.reshape(-1)], corpus=tag))
+                else:
+                    ctx.probe_ok(('corpus', tag))
+            elif e['kind'] == 'so3':
+                if 'angles' in e:
+                    R = exact_rz(e['angles'][0] + e['angles'][2]) if e['angles'][1] == 0 else ref_so3(*e['angles'])
+                else:
+                    t = e['rxrx']
+                    Rx = lambda u: np.array([[1.0, 0, 0], [0, math.cos(u), -math.sin(u)], [0, math.sin(u), math.cos(u)]])
+                    R = Rx(t) @ Rx(-t)
+                def f():
+                    a, b, g = G.so3_to_angle(R)
+                    return np.array([float(a), float(b), float(g)]), G.angle_to_so3(a, b, g)
+                r = guarded(f)
+                if isinstance(r, str) or not np.all(np.isfinite(r[0])) or amax(r[1] - R) > 1e-6:
+                    ctx.fail('corpus-so3', f'corpus {tag} ({e.get("why", "")}): angle_to_so3(so3_to_angle(R)) != R: ' + (r if isinstance(r, str) else f'angles={r[0].tolist()}'),
+                             dict(op='so3-roundtrip', R=fl(R), corpus=tag))
+                else:
+                    ctx.probe_ok(('corpus', tag))
 
     # P1: SO(3) round trip, single items
     for R, tag in inputs:
@@ -634,6 +729,32 @@ def probe(ctx):
                          dict(op='angle-broadcast', shapes=tag, alpha=np.asarray(a_).tolist(), beta=np.asarray(b_).tolist(), gamma=np.asarray(g_).tolist()))
             else:
                 ctx.probe_ok(('bcast', trial, tag))
+
+    # P10: zero_eps is honoured: with a large threshold the gimbal-lock branch is taken, with a tiny one it is not; assertion tolerance
+    for eps in [1e-3, 1e-5]:
+        for b in [eps / 2, eps * 2, PI - eps / 2, PI - eps * 2]:
+            R = ref_so3(1.1, b, 2.3); U = ref_su2(1.1, b, 2.3)
+            def f():
+                a1, b1, g1 = G.so3_to_angle(R, zero_eps=eps); a2, b2, g2 = G.su2_to_angle(U, zero_eps=eps)
+                V = G.so3_to_su2(R, zero_eps=eps)
+                return (float(a1), float(b1), float(g1)), (float(a2), float(b2), float(g2)), V
+            r = guarded(f)
+            lock = min(b, PI - b) < eps
+            def islock(t):
+                return abs(t[0] - t[2]) < 1e-15 if t[1] < PI / 2 else min(t[2] % (2 * PI), 2 * PI - t[2] % (2 * PI)) < 1e-12
+            tol = 4 * eps if lock else 1e-9
+            if isinstance(r, str) or islock(r[0]) != lock or islock(r[1]) != lock or amax(ref_so3(*r[0]) - R) > tol or amax(ref_su2(*r[1]) - U) > max(tol, 1e-7) \
+                    or min(amax(r[2] - ref_su2(*r[0])), amax(r[2] + ref_su2(*r[0]))) > 1e-12:
+                ctx.fail('zero-eps-forwarding', f'zero_eps={eps} not honoured at beta={b!r}: ' + (r if isinstance(r, str) else f'so3 angles {r[0]}, su2 angles {r[1]}'), dict(op='zero_eps', eps=eps, beta=b))
+            else:
+                ctx.probe_ok(('zeroeps', eps, b))
+    Ubad = ref_su2(0.4, 1.0, 0.7).copy(); Ubad[1, 1] += 1e-5
+    r1 = guarded(lambda: G.su2_to_so3(Ubad)); r2 = guarded(lambda: G.su2_to_so3(Ubad, zero_eps=1e-3)); r3 = guarded(lambda: G.su2_to_angle(Ubad)); r4 = guarded(lambda: G.su2_to_angle(Ubad, zero_eps=1e-3))
+    if r1 != 'error:assert' or isinstance(r2, str) or r3 != 'error:assert' or isinstance(r4, str):
+        ctx.fail('su2-input-assert', f'su2_to_so3 / su2_to_angle must reject a matrix with |U11 - conj(U00)| = 1e-5 at the default zero_eps and accept it at zero_eps=1e-3: {[x if isinstance(x, str) else "ok" for x in (r1, r2, r3, r4)]}',
+                 dict(op='su2-assert', U=[[x.real, x.imag] for x in Ubad.reshape(-1)]))
+    else:
+        ctx.probe_ok('su2-assert')
 
     # P7: rational 2x2 rotations are orthogonal
     for _ in range(50):
